@@ -21,9 +21,9 @@
 (*   answered  every written call got a successful reply and (unless it is *)
 (*             an Introspect) its handler ran from Start to End; nothing   *)
 (*             is pending at quiescence              (C30; C29 with spawn) *)
-(*   ordered   for a spawn-disabled interface: a method handler starts     *)
-(*             only after every earlier-written method call's handler has  *)
-(*             returned                                              (C29) *)
+(*   ordered   for a spawn-disabled interface: of two method calls whose    *)
+(*             handlers ran, the one written first ran first and had       *)
+(*             returned before the other started                     (C29) *)
 (***************************************************************************)
 EXTENDS Dispatch, Json, IOUtils
 
@@ -55,7 +55,9 @@ Answered ==
   /\ \A k \in Written : /\ Count("Reply", k) = 1 /\ Ev[Idx("Reply", k)].ok
                         /\ KindOf(k) # "intro" => Count("Start", k) = 1 /\ Count("End", k) = 1
 SeqWritten == IF Rec[sc].spawn THEN {} ELSE {k \in Written : KindOf(k) \in UserKinds}
-Ordered == \A j, k \in SeqWritten : (j < k /\ Has("Start", k)) => (Has("End", j) /\ Idx("End", j) < Idx("Start", k))
+\* (a call that never started -- lost or stuck -- is `answered`'s business, not an ordering failure)
+Ordered == \A j, k \in SeqWritten : (j < k /\ Has("Start", j) /\ Has("Start", k)) =>
+                                       (Has("End", j) /\ Idx("End", j) < Idx("Start", k))
 
 (* ---- events ---- *)
 IsEv(e) == l <= Len(Ev) /\ Ev[l].e = e /\ l' = l + 1
